@@ -3,7 +3,8 @@
 A. Vectorised numpy primitives of `grid_2d_util.relocated_grid_via_jit_from` / `grid_2d_centre_from`.  Each returns a
    fresh value defined by the minimal fact stated here (ASSUMED); `n` is the length of the 1-D argument `a`.
 
-(1) np.add(x, y), np.subtract(x, y)       == x + y, x - y   (the engine's own scalar / element-wise reading of + and -).
+(1) np.add(x, y), np.subtract(x, y)       == x + y, x - y   (the engine's own scalar / element-wise reading of + and -);
+                                          exactly two positional arguments, any keyword (out=, where=, ...) is rejected.
 (2) np.sqrt(a) of an array                fresh r, same shape:   forall i:  r[i] == sqrt(a[i])
                                           (sqrt is the engine's uninterpreted sqrt).
 (3) np.mean(a), a 1-D real array          obligation  n > 0  (numpy returns NaN for an empty array; R1 has no NaN)
@@ -312,11 +313,18 @@ def _np_square(E, node, st):
 
 
 # ------------------------------------------------------------------------------------------- A. numpy primitives
+def _two_plain_args(node, what):
+    if len(node.args) != 2 or node.keywords:          # out= / where= / dtype= change the meaning: not read here
+        raise OutsideSubset("%s with %d positional arguments / keywords" % (what, len(node.args)))
+
+
 def _np_add(E, node, st):
+    _two_plain_args(node, "np.add")
     return E.binop(ast.Add(), E.ev(node.args[0], st), E.ev(node.args[1], st), st, node)
 
 
 def _np_subtract(E, node, st):
+    _two_plain_args(node, "np.subtract")
     return E.binop(ast.Sub(), E.ev(node.args[0], st), E.ev(node.args[1], st), st, node)
 
 
